@@ -206,6 +206,7 @@ fn model_declines_tree(imp: &str) -> bool {
         let body = &rest[k + 7..];
         let end = body.find('"').unwrap_or(body.len());
         let d = &body[..end];
+        if d.starts_with("Graph {") { rest = &body[end..]; continue; }      // a graph literal: modelled
         let inner = d.trim_start_matches('[').trim_end_matches(']');
         let ok = d.starts_with('[') && d.ends_with(']') && !inner.contains('[')
             && (inner.is_empty() || inner.split(", ").all(|x| !x.is_empty() && x.chars().all(|c| c.is_ascii_digit()))
@@ -456,7 +457,11 @@ pub fn generate(seed: u64, n: usize, thorough: bool, corpus: Option<&str>) -> Ve
                  "A -> [B: 1, C: 1.0], B -> [C: 100000000000000000000], C", "A -> [B: 0.000001], B -> [A: -0], C", "A, B, C", "A -> [A: 0]",
                  "A -> [B: 2, C], B -> [C: 0, A: 3], C -> [A: -1]", "A -> [], B", "A -> [B: 9007199254740993], B", "",
                  // a graph of isolated nodes can only be written with a leading comma (`Graph { A, B }` is read as a block function)
-                 ", A, B", ", A", ", A -> [B,], B", "A -> [B,], B", ", A, B -> [A]"] {
+                 ", A, B", ", A", ", A -> [B,], B", "A -> [B,], B", ", A, B -> [A]",
+                 // parallel edges (an error of the AST builder), and shapes the PEG refuses
+                 "A -> [B, B]", "A -> [B: 1, C, B: 2], B, C", "A -> [B], B -> [A, C, A]", "A -> [B:], B", "A -> B", "A_1 -> [B]", "A -> [,]",
+                 "A -> [\n B]", "A ->\n [B]", "A -> [B], B,", "_ -> [A]", "A -> [_]", "\\x_1 -> [A]", "A -> [B: 1 2]", "A -> [B: x]", "A -> [B: -1.5, C: - 2]",
+                 "$a -> [_b: 3, $_c], _b, $_c", "min -> [in: 1], in", "A -> [B:1,C:2,], B, C", "A -> [B: 1.50, C: 007, D: 0.0, E: -0.0], B, C, D, E", "A, A, A -> [A]"] {
         for g in [format!("Graph {{ {} }}", body), format!("Graph {{\n        {}\n    }}", body.replace(", ", ",\n        "))] {
             push(format!("min sum((u, v, c) in edges(G)) {{ c * x_u_v }}\ns.t.\n    x_u_v >= 1 for (u, v) in edges(G)\nwhere\n    let G = {}\ndefine\n    x_u_v as Real for (u, v) in edges(G)\n", g), "graph-literals", &mut cases);
             push(format!("max y\ns.t.\n    y <= sum((u, v, c) in edges(G)) {{ c }} + len(nodes(G))\n    y <= sum(e in neigh_edges_of(\"A\", G)) {{ 1 }}\nwhere\n    let G = {}\ndefine\n    y as Real\n", g), "graph-literals", &mut cases);
